@@ -1,8 +1,8 @@
 ---------------------------- MODULE MC_LazyRows ----------------------------
 EXTENDS LazyRows
-AllBases   == {"dense", "sparse", "arffd", "arffs", "catd", "cats", "cats3"}
+AllBases   == {"dense", "sparse", "arffd", "arffs", "arffu", "catd", "cats", "cats3"}
 PlainBases == {"dense", "sparse"}
-ArffBases  == {"arffd", "arffs"}
+ArffBases  == {"arffd", "arffs", "arffu"}
 CatBases   == {"catd", "cats", "cats3"}
 DenseOnly  == {"dense"}
 =============================================================================
